@@ -357,3 +357,31 @@ def show(t, depth=0):
             nm += "::" + str(t[2])
         return "%s{%s}" % (nm, ", ".join(show(a, depth + 1) for a in t[3]))
     return "%s" % (t,)
+
+
+_COMMUTATIVE = {"BitAnd", "BitOr", "BitXor", "Eq", "Ne", "Add", "Mul", "AddWithOverflow", "MulWithOverflow"}
+_MIRROR = {"Gt": "Lt", "Ge": "Le"}
+
+
+def canon(t):
+    """One spelling per term, for comparing against a reference: operands of commutative operators in text order,
+    `a > b` / `a >= b` written `b < a` / `b <= a`; applied bottom-up through every term constructor."""
+    if not isinstance(t, tuple) or not t:
+        return t
+    k = t[0]
+    if k == "bin":
+        op, a, b = t[1], canon(t[2]), canon(t[3])
+        if op in _MIRROR:
+            op, a, b = _MIRROR[op], b, a
+        elif op in _COMMUTATIVE and show(b) < show(a):
+            a, b = b, a
+        return ("bin", op, a, b) + tuple(t[4:])
+    if k in ("field", "downcast", "discr"):
+        return (k, canon(t[1])) + tuple(t[2:])
+    if k in ("un", "cast"):
+        return (k, t[1], canon(t[2])) + tuple(t[3:])
+    if k == "call":
+        return (k, t[1], tuple(canon(a) for a in t[2])) + tuple(t[3:])
+    if k == "agg":
+        return (k, t[1], t[2], tuple(canon(a) for a in t[3])) + tuple(t[4:])
+    return t
